@@ -137,6 +137,8 @@ func coqClass(k string) string {
 		return "EPanic"
 	case "client":
 		return "EClient"
+	case "wrapsafe":
+		return "EWrapsSafe"
 	}
 	return "EPlain"
 }
@@ -173,7 +175,7 @@ func CoqObj(o *Obj) string {
 	for _, k := range sortedKeys(o.Res) {
 		oc := o.Res[k]
 		if oc.Fail != "" {
-			fs = append(fs, fmt.Sprintf("(%s, OFail (mk_err %s %s))", vh.CoqString(k), coqClass(oc.Fail), vh.CoqString(oc.Msg)))
+			fs = append(fs, fmt.Sprintf("(%s, OFail (mk_err %s %s))", vh.CoqString(k), coqClass(oc.Fail), vh.CoqString(FailText(oc.Fail, oc.Msg))))
 		} else {
 			fs = append(fs, fmt.Sprintf("(%s, OOk %s)", vh.CoqString(k), CoqVal(oc.Val)))
 		}
